@@ -34,6 +34,7 @@ type Op struct {
 	RC       []int    `json:"rc,omitempty"` // row col rows cols
 	Base     string   `json:"base,omitempty"`
 	Off      bool     `json:"off,omitempty"`
+	Map      string   `json:"map,omitempty"` // pixel map loaded at START: "" none, "ok" (nchan/channelsPerPixel pixels), "short", "long", "nchan", "zero"
 	Sel      string   `json:"sel,omitempty"` // with off: which channels have projectors: "" all, "odd", "even", "last", "mid"
 }
 
@@ -351,6 +352,12 @@ func genRC(r *lib.Rng) Op {
 // prefix of the channel list (feedback streams only, the last channels only, one channel in the middle).
 func filesOp(r *lib.Rng, base string) Op {
 	o := Op{Op: "files", Base: base, Off: r.Chance(2, 3)}
+	switch x := r.Intn(20); { // a pixel map is loaded in half of the STARTs; one in five of those has the wrong size
+	case x < 8:
+		o.Map = "ok"
+	case x < 10:
+		o.Map = pickStr(r, []string{"short", "long", "nchan", "zero"})
+	}
 	if o.Off {
 		o.Sel = pickStr(r, []string{"", "odd", "odd", "even", "last", "mid"})
 	}
@@ -543,6 +550,15 @@ func corpus() []Case {
 			{Op: "lrun", Req: []int{5, 3}, Nsamp: 1, First: 1, SepCards: 4, Geom: g(1, 4, 3, 4)},
 			{Op: "lrun", Req: []int{0}, Nsamp: 1, First: 1, SepCards: 4, Geom: g(2, 4)}}},
 		{Avail: all, Ops: []Op{{Op: "rprep", Devs: []int{3, 2}}, {Op: "files", Base: "ro", Off: true}}},
+		// a pixel map is loaded when writing starts (right size, wrong sizes), with and without OFF
+		{Avail: all, Ops: []Op{
+			{Op: "lrun", Req: []int{0}, Nsamp: 1, First: 1, Geom: g(2, 2)},
+			{Op: "files", Base: "pm", Map: "ok"}, {Op: "files", Base: "pm", Map: "nchan"},
+			{Op: "files", Base: "pm", Off: true, Sel: "odd", Map: "ok"}, {Op: "files", Base: "pm", Map: "short"},
+			{Op: "files", Base: "pm", Map: "long"}, {Op: "files", Base: "pm", Map: "zero"}, {Op: "files", Base: "pm"}}},
+		{Avail: all, Ops: []Op{{Op: "aprep", One: true, Pk: g(3, 8, 2, 0)}, {Op: "files", Base: "pm", Off: true, Map: "ok"},
+			{Op: "files", Base: "pm", Map: "long"}, {Op: "tprep", N: 3}, {Op: "files", Base: "pm", Map: "ok"}}},
+		{Avail: all, Ops: []Op{{Op: "rprep", Devs: []int{2, 2}}, {Op: "files", Base: "pm", Off: true, Sel: "last", Map: "ok"}}},
 		// projectors on a subset of the channels that is not a prefix of the channel list
 		{Avail: all, Ops: []Op{
 			{Op: "lrun", Req: []int{0}, Nsamp: 1, First: 1, Geom: g(2, 2)},
@@ -699,6 +715,27 @@ func offIdent(head string) string {
 type prepared struct {
 	ds    *dastard.AnySource
 	nchan int
+	cpp   int
+}
+
+// mapPixels: number of pixels of the map loaded at START (-1: no map)
+func mapPixels(o Op, nchan, cpp int) int {
+	if cpp <= 0 {
+		cpp = 1
+	}
+	switch o.Map {
+	case "ok":
+		return nchan / cpp
+	case "short":
+		return nchan/cpp - 1
+	case "long":
+		return nchan/cpp + 1
+	case "nchan":
+		return nchan
+	case "zero":
+		return 0
+	}
+	return -1
 }
 
 func runCase(c Case) (res lib.Result) {
@@ -762,7 +799,7 @@ func runCase(c Case) (res lib.Result) {
 				}
 				t := l.LS.VerifC19Tables()
 				obTerm, ob = accTerm(t, st.MixedRowCounts, st.ChanOrder), t
-				last = &prepared{&l.LS.AnySource, t.Nchan}
+				last = &prepared{&l.LS.AnySource, t.Nchan, t.ChannelsPerPixel}
 				tags["lancero-accepted"] = true
 				if len(t.Groups) >= 2 && (st.SepCards > 0 || st.SepCols > 0) {
 					nonTrivial = true
@@ -822,7 +859,7 @@ func runCase(c Case) (res lib.Result) {
 				as.VerifC19SetSampleRate(10000)
 				t := as.VerifC19Tables()
 				obTerm, ob = accTerm(t, false, nil), t
-				last = &prepared{&as.AnySource, t.Nchan}
+				last = &prepared{&as.AnySource, t.Nchan, t.ChannelsPerPixel}
 				tags["abaco-accepted"] = true
 				if len(t.Groups) >= 2 {
 					nonTrivial = true
@@ -838,7 +875,7 @@ func runCase(c Case) (res lib.Result) {
 				}
 				t := rs.VerifC19Tables()
 				obTerm, ob = accTerm(t, false, nil), t
-				last = &prepared{&rs.AnySource, t.Nchan}
+				last = &prepared{&rs.AnySource, t.Nchan, t.ChannelsPerPixel}
 				tags["roach"] = true
 			case "tprep":
 				opTerm = "TPrep " + lib.Z(int64(o.N))
@@ -861,7 +898,7 @@ func runCase(c Case) (res lib.Result) {
 				}
 				t := ts.VerifC19Tables()
 				obTerm, ob = accTerm(t, false, nil), t
-				last = &prepared{&ts.AnySource, t.Nchan}
+				last = &prepared{&ts.AnySource, t.Nchan, t.ChannelsPerPixel}
 			case "sprep":
 				opTerm = "SPrep " + lib.Z(int64(o.N))
 				sp := dastard.NewSimPulseSource()
@@ -884,7 +921,7 @@ func runCase(c Case) (res lib.Result) {
 				}
 				t := sp.VerifC19Tables()
 				obTerm, ob = accTerm(t, false, nil), t
-				last = &prepared{&sp.AnySource, t.Nchan}
+				last = &prepared{&sp.AnySource, t.Nchan, t.ChannelsPerPixel}
 			case "eprep":
 				opTerm = "EPrep " + lib.Z(int64(o.N))
 				es := dastard.NewErroringSource()
@@ -899,7 +936,7 @@ func runCase(c Case) (res lib.Result) {
 				es.VerifC19SetSampleRate(10000)
 				t := es.VerifC19Tables()
 				obTerm, ob = accTerm(t, false, nil), t
-				last = &prepared{&es.AnySource, t.Nchan} // no row/column codes: a START on it panics (never generated)
+				last = &prepared{&es.AnySource, t.Nchan, t.ChannelsPerPixel} // no row/column codes: a START on it panics (never generated)
 			case "rc":
 				rc := append(append([]int(nil), o.RC...), 0, 0, 0, 0)[:4]
 				opTerm = fmt.Sprintf("RcCode %s %s %s %s", lib.Z(int64(rc[0])), lib.Z(int64(rc[1])), lib.Z(int64(rc[2])), lib.Z(int64(rc[3])))
@@ -931,10 +968,10 @@ func runCase(c Case) (res lib.Result) {
 				base := tmp + bname
 				if last == nil || last.nchan <= 0 {
 					// today is irrelevant to the outcome
-					opTerm = fmt.Sprintf("Files %s %s 0 []", q(base), q(""))
+					opTerm = fmt.Sprintf("Files %s %s 0 [] (-1)", q(base), q(""))
 					obTerm, ob = "ONoFiles", "nothing prepared"
 					if last != nil {
-						f := dastard.VerifC19WriteStart(last.ds, base, 4, 16, nil)
+						f := dastard.VerifC19WriteStart(last.ds, base, 4, 16, nil, -1)
 						if f.PrepareRunErr == "" {
 							panic("PrepareRun accepted a source without channels")
 						}
@@ -942,17 +979,27 @@ func runCase(c Case) (res lib.Result) {
 					return
 				}
 				offs := offChannels(o, last.nchan)
-				f := dastard.VerifC19WriteStart(last.ds, base, 4, 16, offs)
+				mapn := mapPixels(o, last.nchan, last.cpp)
+				f := dastard.VerifC19WriteStart(last.ds, base, 4, 16, offs, mapn)
 				if f.Panic != "" {
 					panic(f.Panic)
 				}
-				if f.PrepareRunErr != "" || f.StartErr != "" {
-					panic("PrepareRun/START failed: " + f.PrepareRunErr + f.StartErr)
+				if f.PrepareRunErr != "" {
+					panic("PrepareRun failed: " + f.PrepareRunErr)
 				}
 				i := starts[base]
+				if f.StartErr != "" { // START refused (map of the wrong size): no directory was made
+					opTerm = fmt.Sprintf("Files %s %s %d %s %s", q(base), q(""), i, lib.ZListInt(offs), lib.Z(int64(mapn)))
+					obTerm, ob = "OStartErr", "start-error:"+f.StartErr
+					tags["files-start-refused"] = true
+					return
+				}
 				starts[base]++
 				today := filepath.Base(filepath.Dir(filepath.Dir(f.Pattern)))
-				opTerm = fmt.Sprintf("Files %s %s %d %s", q(base), q(today), i, lib.ZListInt(offs))
+				opTerm = fmt.Sprintf("Files %s %s %d %s %s", q(base), q(today), i, lib.ZListInt(offs), lib.Z(int64(mapn)))
+				if mapn >= 0 {
+					tags["files-with-pixel-map"] = true
+				}
 				heads := map[string]string{}
 				for _, fl := range f.Files {
 					heads[fl.Name] = fl.Head
